@@ -1,4 +1,5 @@
 import Tibc.Props.C01
+import Tibc.Expect.Packet
 #print axioms Tibc.C01.recv_writes_only_after_verification
 #print axioms Tibc.C01.recv_accepted_committed
 #print axioms Tibc.C01.recv_rejected_unchanged
